@@ -32,6 +32,11 @@ pub struct Spec {
     pub env: Vec<(OsString, OsString)>,
     pub cwd: PathBuf,
     pub stdin: Stdin,
+    /// remove the (empty) working directory after chdir and before exec
+    pub rm_cwd: bool,
+    /// RLIMIT_AS for the child, bytes (an allocation failure then aborts the child quickly
+    /// instead of exhausting the machine)
+    pub mem_limit: Option<u64>,
 }
 
 #[derive(Clone, Debug, PartialEq, Eq)]
@@ -129,6 +134,25 @@ pub fn run(spec: &Spec) -> Outcome {
                 c.stdin(Stdio::null());
             }
         },
+    }
+    if spec.rm_cwd || spec.mem_limit.is_some() {
+        let cwd_c = std::ffi::CString::new(spec.cwd.as_os_str().as_encoded_bytes().to_vec()).ok();
+        let rm = spec.rm_cwd;
+        let lim = spec.mem_limit;
+        unsafe {
+            c.pre_exec(move || {
+                if let Some(l) = lim {
+                    let rl = libc::rlimit { rlim_cur: l as libc::rlim_t, rlim_max: l as libc::rlim_t };
+                    libc::setrlimit(libc::RLIMIT_AS, &rl);
+                }
+                if rm {
+                    if let Some(p) = &cwd_c {
+                        libc::rmdir(p.as_ptr());
+                    }
+                }
+                Ok(())
+            });
+        }
     }
     let t0 = Instant::now();
     let mut child = match c.spawn() {
